@@ -218,3 +218,19 @@ m("c19-one-slot-recycling-in-c-new-free", "C19", 1, [("src/MSSMNoFV/MSSMNoFV_ons
    "void gm2calc_mssmnofv_free(MSSMNoFV_onshell* model)\n{\n   delete reinterpret_cast<gm2calc::MSSMNoFV_onshell*>(model);\n}",
    "void gm2calc_mssmnofv_free(MSSMNoFV_onshell* model)\n{\n   if (model == nullptr) { return; }\n   delete recycled;\n   recycled = reinterpret_cast<gm2calc::MSSMNoFV_onshell*>(model);\n}")],
   "process-wide one-slot recycling of model objects behind the C new/free without synchronisation: parallel construction through the C interface races (two threads can get the same object)")
+
+# ----------------------------------------------------------------------------- C14: remaining clauses (leak, exit status, bounded time with calls)
+m("c14-leak-on-error-path", "C14", 1, [("src/gm2calc.cpp",
+   "   try {\n      set_to_default(config_options, options);\n      slha_io.read_from_source(options.input_source);\n      slha_io.fill(config_options);\n",
+   "   try {\n      set_to_default(config_options, options);\n      auto* input_name = new std::string(options.input_source); // kept for diagnostics\n      slha_io.read_from_source(*input_name);\n      slha_io.fill(config_options);\n      delete input_name;\n")],
+  "heap object not released when reading or configuration parsing throws: leak on every failing input")
+
+m("c14-exit-status-2-for-read-errors", "C14", 1, [("src/gm2calc.cpp",
+   "   } catch (const gm2calc::Error& error) {\n      print_error(error, slha_io, config_options);\n      exit_code = EXIT_FAILURE;\n   }\n\n   return exit_code;",
+   "   } catch (const gm2calc::EReadError& error) {\n      print_error(error, slha_io, config_options);\n      exit_code = 2; // distinguish I/O problems from physics problems\n   } catch (const gm2calc::Error& error) {\n      print_error(error, slha_io, config_options);\n      exit_code = EXIT_FAILURE;\n   }\n\n   return exit_code;")],
+  "a third exit status for read errors")
+
+m("c14-retry-loop-on-unreadable-file", "C14", 1, [("src/gm2_slha_io.cpp",
+   "   std::ifstream ifs(file_name);\n   if (ifs.good()) {\n      data.clear();\n      data.read(ifs);\n   } else {\n      throw EReadError(\"cannot read input file: \\\"\" + file_name + \"\\\"\");\n   }",
+   "   // network file systems: the file may appear a moment later\n   for (;;) {\n      std::ifstream ifs(file_name);\n      if (ifs.good()) {\n         data.clear();\n         data.read(ifs);\n         return;\n      }\n      if (file_name.empty()) {\n         throw EReadError(\"cannot read input file: \\\"\" + file_name + \"\\\"\");\n      }\n      WARNING(\"cannot open \\\"\" << file_name << \"\\\", retrying\");\n   }")],
+  "unbounded retry loop (with calls and output) when the input file cannot be opened")
